@@ -360,6 +360,7 @@ def check_sort(ctx, env, cases):
         rep = {"kind": "input", "case": c, "line": line, "observed": o}
         if o is None or o.startswith(("ERR", "PANIC", "BADOP")):
             ctx.violation("sort-crash:%s:%s:%s" % (c["recv"], c["cmp"], c["mutate"]), "sort crashed / escaped: %s" % (o or "")[:200], rep)
+            agree = False
             continue
         err, same, res, after, calls, tag = (o.split("|") + [""] * 6)[:6]
         inp = sorted("%d.%d" % (e[0], e[1]) if isinstance(e, list) else e for e in c["elems"])
@@ -610,6 +611,7 @@ def main(ctx):
     ctx.obligation("oracle:methods-fastpath=generic(metamorphic)", "correspondence",
                    not any(v["signature"].startswith(("method-", "frozen-")) for v in ctx.violations), "")
 
+    ctx.stats["std_fastpath_final"] = env.stats["std_fastpath_final"]
     ctx.assumptions += [
         "values are opaque identities to the array mechanism (parametricity); numbers/strings are C05/C06's concern",
         "the backing array beyond len(values) holds nil (array.go re-slices within cap)",
